@@ -414,12 +414,16 @@ func writerRun(sp *WriterSpec) (core.Exec, []byte) {
 			var cs [][]byte
 			for _, ch := range op.Chunks {
 				if len(ch) > 0 {
-					rs = append(rs, &oneShot{b: ch})
+					rs = append(rs, &oneShot{b: ch, glued: op.Bv})
 					cs = append(cs, ch)
 				}
 			}
 			_, err = w.(io.ReaderFrom).ReadFrom(io.MultiReader(rs...))
 			ops.N(4)
+			if !op.Bv && len(cs) > 0 {
+				// the source reports io.EOF separately: one more Read that returns no bytes
+				cs = append(cs, []byte{})
+			}
 			tapeChunks(ops, cs)
 			tags = append(tags, "op:ReadFrom")
 		case 5:
@@ -587,7 +591,11 @@ func writerRun(sp *WriterSpec) (core.Exec, []byte) {
 }
 
 // reader that returns its bytes in one Read (or as much as fits), then io.EOF
-type oneShot struct{ b []byte }
+// (glued: the last bytes are returned together with io.EOF, as an io.Reader may)
+type oneShot struct {
+	b     []byte
+	glued bool
+}
 
 func (o *oneShot) Read(p []byte) (int, error) {
 	if len(o.b) == 0 {
@@ -595,6 +603,9 @@ func (o *oneShot) Read(p []byte) (int, error) {
 	}
 	n := copy(p, o.b)
 	o.b = o.b[n:]
+	if o.glued && len(o.b) == 0 {
+		return n, io.EOF
+	}
 	return n, nil
 }
 
@@ -695,7 +706,7 @@ func genMessageOps(rng *rand.Rand, wbuf int, maxLen int, negotiated bool, allowP
 				if negotiated {
 					ops = append(ops, WOp{K: 2, Data: part})
 				} else {
-					ops = append(ops, WOp{K: 4, Chunks: chunks})
+					ops = append(ops, WOp{K: 4, Chunks: chunks, Bv: rng.Intn(2) == 0})
 				}
 			default:
 				ops = append(ops, WOp{K: 2, Data: part})
